@@ -14,6 +14,9 @@ R3.6 &&, ||, ! accept only booleans (logic decided by enumeration of the paths);
 R3.7 every other type combination is a type error (Expected*/WrongTypeCombination), never a value;
 R3.8 impl EvalexprInt for i64: checked_X is i64::checked_X(self, rhs) and None becomes the matching arithmetic error carrying
      (self, rhs) in order; no wrapping/overflowing/unchecked operation, no raw arithmetic.
+R3.10 the float side of the default numeric types: `<f64 as EvalexprFloat>::pow` (the only float operation `^` reaches that is not a
+     core::ops method) is f64::powf(self, exponent) on its single path, and `DefaultNumericTypes::int_as_float` is the one
+     `i64 as f64` conversion of its argument (no second cast, no arithmetic, no call).
 Not decided: the numbers themselves (i64::checked_*, IEEE-754 operations and float formatting are trusted std)."""
 import tables
 from absint import Interp, SYM, C, ADT, OK, ERR, SOME, NONE, fmt, is_adt, Budget, P_OK, P_ERR, P_SOME, expand_results
@@ -203,6 +206,7 @@ def run(ctx):
     pe = [i for i in prog.facts['impls'] if path_endswith(i.get('trait') or '', 'cmp::PartialEq') and i['self_ty'].startswith('value::Value<')]
     ctx.check(len(pe) == 1 and pe[0]['derived'], 'R3.5', 'Value:PartialEq', 'derived', 'PartialEq for Value is the derived structural equality')
     r38(ctx, prog)
+    r39(ctx, prog)
     r32_witness(ctx, prog)
     ctx.sample(dict(rule='R3.2', Add_Int_Int='Result::map(EvalexprInt::checked_add($a, $b), Value::Int)', Add_Int_Float='Ok(Value::Float(Add::add(int_as_float($a), $b)))'))
 
@@ -210,6 +214,39 @@ def run(ctx):
 def V2(val, name, payload):
     v = [x for x in val['variants'] if x['name'] == name][0]
     return ADT(val['path'], v['idx'], name, [payload])
+
+
+def r39(ctx, prog):
+    fs = [f for f in prog.fns if f.name == 'pow' and path_endswith(f.j.get('impl_trait') or '', 'EvalexprFloat') and f.j.get('impl_self_ty') == 'f64']
+    if len(fs) != 1:
+        ctx.unrecognised('R3.10', '<f64 as EvalexprFloat>::pow', 'missing', 'not found')
+    else:
+        g = fs[0]
+        args = [SYM('self'), SYM('exponent')]
+        try:
+            ps = Interp(prog).paths(g, args)
+        except Budget:
+            ps = []
+        r = ps[0][0] if len(ps) == 1 else None
+        good = r is not None and r[0] == 'app' and r[1].split('::')[-1] == 'powf' and 'f64' in r[1] and list(r[2]) == args
+        raw = [st for blk in g.blocks if not blk['cleanup'] for st in blk['stmts'] if st['k'] == 'assign' and st['rv']['k'] in ('binop', 'cast')]
+        ctx.check(good and not raw, 'R3.10', '<f64 as EvalexprFloat>::pow', 'powf', '`^` on the default float type is f64::powf(self, exponent) for every pair of operands: one path, no cast, no other operation (found %d path(s), %s)' % (len(ps), [fmt(p[0])[:100] for p in ps][:3]), span=g.span)
+    fs = [f for f in prog.fns if f.name == 'int_as_float' and path_endswith(f.j.get('impl_trait') or '', 'EvalexprNumericTypes') and (f.j.get('impl_self_ty') or '').endswith('DefaultNumericTypes')]
+    if len(fs) != 1:
+        ctx.unrecognised('R3.10', 'DefaultNumericTypes::int_as_float', 'missing', 'not found')
+        return
+    g = fs[0]
+    try:
+        ps = Interp(prog).paths(g, [SYM('int')])
+    except Budget:
+        ps = []
+    stmts = [st for blk in g.blocks if not blk['cleanup'] for st in blk['stmts'] if st['k'] == 'assign']
+    casts = [st for st in stmts if st['rv']['k'] == 'cast']
+    other = [st for st in stmts if st['rv']['k'] in ('binop', 'unop', 'aggregate')]
+    calls = [t for _b, t in g.calls()]
+    good = len(ps) == 1 and ps[0][0] == SYM('int') and len(casts) == 1 and 'IntToFloat' in str(casts[0]['rv'].get('kind') or casts[0]['rv'].get('cast') or casts[0]['rv']) and not other and not calls \
+        and g.locals[0]['ty'] == 'f64'
+    ctx.check(good, 'R3.10', 'DefaultNumericTypes::int_as_float', 'conversion', 'mixed arithmetic converts an integer with exactly one `i64 as f64` cast of the argument (casts %d, other operations %d, calls %d, returns %s)' % (len(casts), len(other), len(calls), [fmt(p[0])[:80] for p in ps][:2]), span=g.span)
 
 
 def r38(ctx, prog):
